@@ -63,11 +63,14 @@ def families(tier):
         patterns(3, T3, H4, (1, 2), prios=(0, 1)) if not q else patterns(3, T3, H4, (1,), prios=(0, 1)), chunks=4,
         requests="1..3", priorities=[0, 1])
     fam("Server-dynamic", "Server",
-        _grid(model=["dynamic"], policy=["FIFO"], conc=[1, 2], cap=[None],
-              knob=[[], [(1, 2)], [(1, 1), (2, 2)]] if q else [[], [(1, 2)], [(1, 1)], [(2, 3)], [(1, 1), (2, 2)]]),
+        [c for c in _grid(model=["dynamic"], policy=["FIFO"], conc=[1, 2], cap=[None],
+                          knob=[[], [(1, 2)], [(1, 1), (2, 2)]] if q
+                          else [[], [(1, 2)], [(1, 1)], [(2, 3)], [(1, 1), (2, 2)]],
+                          ctl_first=[True, False]) if c["knob"] or c["ctl_first"]],
         patterns(3, T3, H4, (1, 2)), chunks=4,
         requests="1..3", service_tick_sequences=[1, 2], initial_limit=[1, 2],
-        set_limit_schedules=["none", "t1->2", "t1->1,t2->2"] if q else ["none", "t1->2", "t1->1", "t2->3", "t1->1,t2->2"])
+        set_limit_schedules=["none", "t1->2", "t1->1,t2->2"] if q else ["none", "t1->2", "t1->1", "t2->3", "t1->1,t2->2"],
+        control_events_created=["before the arrivals", "after the arrivals"])
     fam("Server-weighted", "Server", _grid(model=["weighted"], policy=["FIFO"], conc=[2, 3], cap=[None]),
         patterns(3, T3, H4, (1,) if q else (1, 2), weights=(1, 2)), chunks=4,
         requests="1..3", weights=[1, 2], total_capacity=[2, 3])
@@ -103,11 +106,12 @@ def families(tier):
         patterns(3 if q else 4, T3, H4, (0,)), chunks=2,
         requests=f"1..{3 if q else 4}", belt_capacity=["unlimited", 1, 2], transit_ticks=[0, 1, 2])
     fam("Gate", "Gate",
-        [dict(schedule=s, open0=o, cap=c) for s in ([], [(1, 2)], [(2, 3)], [(1, 3)], [(0, 1), (2, 4)])
-         for o in (True, False) for c in (None, 1)],
+        [dict(schedule=s, open0=o, cap=c, ctl_first=f) for s in ([], [(1, 2)], [(2, 3)], [(1, 3)], [(0, 1), (2, 4)])
+         for o in (True, False) for c in (None, 1) for f in ((True, False) if s else (True,))],
         patterns(3 if q else 4, T3, H4, (0,)), chunks=2,
         requests=f"1..{3 if q else 4}", schedules=["none", "1-2", "2-3", "1-3", "0-1,2-4"],
-        initially_open=[True, False], queue_capacity=["unlimited", 1])
+        initially_open=[True, False], queue_capacity=["unlimited", 1],
+        control_events_created=["before the arrivals", "after the arrivals"])
     fam("Batch", "Batch", _grid(batch=[1, 2, 3], svc=[0, 1], timeout=[0, 1, 2]),
         patterns(3 if q else 4, T3, H4, (0,)), chunks=2,
         requests=f"1..{3 if q else 4}", batch_size=[1, 2, 3], process_ticks=[0, 1], timeout_ticks=[0, 1, 2])
